@@ -88,6 +88,7 @@ def _own_stmts(fnode):
 class LoopCtx:
     def __init__(self, i, n, loc, heap, entry_loc, entry_heap, it=None):
         self.i, self.n, self.loc, self.heap, self.entry_loc, self.entry_heap, self.it = i, n, loc, heap, entry_loc, entry_heap, it
+        self.k = i          # number of completed iterations (ghost), also for while loops
 
     def t(self, name):
         v = self.loc[name]
@@ -350,7 +351,26 @@ class Interp:
             return OpaqueV('__dict__', v)
         if name == '__class__':
             return OpaqueV('typeof', v)
-        if name in self.eng.instance_fields and not self.is_property_of(v, name):
+        as_field = name in self.eng.instance_fields
+        if as_field and name in self.eng.property_names:
+            # some classes define a property of this name (a data descriptor wins over the instance attribute)
+            cl = self.classes_of(v)
+            props = [c for c in cl if self.class_has_property(c, name)]
+            if props and len(props) < len(cl):
+                k = self.narrow(v, {'prop': props, 'field': [c for c in cl if c not in props]}, f'property-or-field-{name}')
+                as_field = (k == 'field')
+            elif props:
+                as_field = False
+        if as_field and name in self.eng.maybe_foreign_fields:
+            # an attribute that only some classes have (e.g. `stages`): reading it on an object of another class is an AttributeError
+            cl = self.classes_of(v)
+            lacking = [c for c in cl if c in self.repo.classes and name not in self.eng.class_fields.get(c, ())]
+            if lacking and len(lacking) < len(cl):
+                r_ = sym.r_of(t)
+                self.maybe_raise(z3.Not(z3.Or([self.heap.cls(r_) == self.eng.class_id(c) for c in lacking])), 'AttributeError', fr, node, f'.{name} on non-object of a class without it')
+            elif lacking:
+                self.maybe_raise(z3.BoolVal(False), 'AttributeError', fr, node, f'.{name} on non-object of a class without it')
+        if as_field:
             val = self.heap.get(name, sym.r_of(t))
             if has_default:
                 if self.run.decide(sym.is_undef(val), f'hasattr-{name}'):
@@ -369,6 +389,12 @@ class Interp:
                 return SV(val, hint=frozenset([fh]))
             return SV(val)
         return self.resolve_on_obj(v, name, fr, node)
+
+    def class_has_property(self, c, name):
+        if c not in self.repo.classes:
+            return False
+        r = self.repo.resolve_method(c, name)
+        return r is not None and not isinstance(r, tuple) and r.kind in ('property', 'staticproperty')
 
     def is_property_of(self, v, name):
         """a property defined by the class (a data descriptor) takes precedence over an instance attribute of that name"""
